@@ -3,6 +3,8 @@ package rules
 import (
 	"fmt"
 	"go/ast"
+	"go/token"
+	"strings"
 
 	"bebopverif/internal/core"
 	"bebopverif/internal/geneval"
@@ -148,25 +150,40 @@ func checkC05(c *core.Ctx) {
 			fmt.Sprintf("%d Drain calls on the unbounded base reader: would swallow every following record — %s", len(l.DrainBad), rf.where(firstPos(l.DrainBad))))
 		// R5: the Make wrapper decodes unless the record has no wire footprint
 		gr.checkMakeWrappers(rf)
-		// the emitted text touches r.Reader only in the install/restore statements
-		n := 0
-		for _, s := range collectSelectors(sr) {
-			if s == "r.Reader" {
-				n++
-			}
-		}
-		arms := 0
-		for _, it := range sr.Items {
-			if it.Kind == wire.KSwitch {
-				for _, cs := range it.Cases {
-					if cs.Returns {
-						arms++
+		// the emitted text touches r.Reader only in the save / install / restore statements
+		bad := ""
+		nMention := 0
+		ast.Inspect(sr.Decl.Body, func(n ast.Node) bool {
+			as, isAs := n.(*ast.AssignStmt)
+			if isAs && len(as.Lhs) == 1 && len(as.Rhs) == 1 {
+				lhs, rhs := wire.Canon(as.Lhs[0]), wire.Canon(as.Rhs[0])
+				switch {
+				case rhs == "r.Reader" && as.Tok == token.DEFINE:
+					nMention++
+					return false // save
+				case lhs == "r.Reader" && (rhs == l.BaseVar || strings.HasPrefix(rhs, "&io.LimitedReader") || !strings.Contains(rhs, "r.Reader")):
+					nMention++
+					// install (a limiter over the saved reader) or restore
+					mentions := false
+					ast.Inspect(as.Rhs[0], func(k ast.Node) bool {
+						if sel, ok := k.(*ast.SelectorExpr); ok && wire.Canon(sel) == "r.Reader" {
+							mentions = true
+						}
+						return true
+					})
+					if mentions {
+						bad = rf.GF.Snippet(as)
 					}
+					return false
 				}
 			}
-		}
-		c.Check("R2", "emitted DecodeBebop touches r.Reader only to install/restore "+frameKey(rf), anchorPos(gr.p, rf.Spec.Kind, mSR), n == 2+arms,
-			fmt.Sprintf("%d mentions of r.Reader for %d returning arms (expected save + install + one restore per returning arm) — %s", n, arms, rf.where(sr.Decl.Pos())))
+			if sel, ok := n.(*ast.SelectorExpr); ok && wire.Canon(sel) == "r.Reader" {
+				bad = "r.Reader used outside the save/install/restore statements"
+			}
+			return true
+		})
+		c.Check("R2", "emitted DecodeBebop touches r.Reader only to install/restore "+frameKey(rf), anchorPos(gr.p, rf.Spec.Kind, mSR), bad == "" && nMention >= 3,
+			fmt.Sprintf("%s (%d save/install/restore statements) — %s", bad, nMention, rf.where(sr.Decl.Pos())))
 	}
 	for _, rf := range gr.ga.Recs {
 		if rf.Spec.Kind == genfacts.ClsStruct {
